@@ -1304,6 +1304,8 @@ enum CutSpec {
     Boundary(usize),
     /// cut at exactly this length
     At(usize),
+    /// cut n bytes (1..=3) into the 4-byte length prefix of the k-th record from the end
+    LenPrefix(usize, usize),
 }
 struct SessObs {
     outs: Vec<String>,
@@ -1390,6 +1392,11 @@ fn run_history(sc: &mut Scratch, mode: Mode, sessions: &[(Vec<Op>, End)]) -> (Ve
                         CutSpec::Full => b.len(),
                         CutSpec::At(n) => (*n).min(b.len()),
                         CutSpec::Boundary(j) => bound(*j),
+                        CutSpec::LenPrefix(j, n) => {
+                            // start of the j-th record from the end = end of the one before it
+                            let start = if ends.len() > j + 1 { bound(*j + 1) } else { 0 };
+                            start + (*n).clamp(1, 3)
+                        }
                         CutSpec::Inside(j) => {
                             let hi = bound(*j);
                             let lo = if ends.len() > j + 1 { bound(*j + 1) } else { 0 };
@@ -1736,7 +1743,15 @@ fn cases_history(prop: &str, sc: &mut Scratch, out: &mut Out, mode: Mode, ss: &[
                 let lastb = o.orig.last().map(|x| x.1.clone()).unwrap_or_default();
                 let ends = frame_ends(&lastb);
                 let clean = ends.last().copied().unwrap_or(0) == lastb.len();
-                c.tags.push(if (cut as usize) == lastb.len() { "cut:full".into() } else if ends.contains(&(cut as usize)) || cut == 0 { "cut:boundary".into() } else { "cut:inside-record".to_string() });
+                c.tags.push(if (cut as usize) == lastb.len() {
+                    "cut:full".into()
+                } else if ends.contains(&(cut as usize)) || cut == 0 {
+                    "cut:boundary".into()
+                } else {
+                    let start = ends.iter().rev().find(|&&x| x < cut as usize).copied().unwrap_or(0);
+                    let off = cut as usize - start;
+                    if off < 4 { format!("cut:length-prefix+{}", off) } else { "cut:inside-record".to_string() }
+                });
                 coqt = format!("({}) && chk_pre_synced {} {} {} {} {}", coqt, tt, cfg, sst, seq, o.synced_est);
                 // s = number of leading operations whose records were covered by an fsync
                 let total = *o.rcs.last().unwrap_or(&0) as usize;
@@ -2262,6 +2277,43 @@ fn corpus_c06(sc: &mut Scratch, out: &mut Out) {
         t("fixed:K2"),
         false,
     );
+    // a crash that leaves 1, 2 or 3 bytes of a record's length prefix: the recovered database must
+    // keep what is written to it afterwards (the stray bytes are cut off when the log is opened).
+    //  (a) the only record of the session; (b) the first of two (an earlier record: everything
+    //  behind it is cut away as well); (c) the last of two (the intact first one is class K5 material)
+    for n in 1..=3usize {
+        for mode in [Mode::NoSync, Mode::Sync] {
+            cases_history(
+                "C06",
+                sc,
+                out,
+                mode,
+                &[(vec![Op::CreateNode(l(&["A"]))], End::Close), (vec![Op::CreateNode(l(&["B"]))], End::Crash(CutSpec::LenPrefix(0, n))), (vec![Op::CreateNode(l(&["L2"])), Op::SetNodeProp(0, "k".into(), int(1))], End::Close)],
+                t("cut:length-prefix-last"),
+                false,
+            );
+        }
+        cases_history(
+            "C06",
+            sc,
+            out,
+            Mode::NoSync,
+            &[(vec![Op::CreateNode(l(&["A"]))], End::Close), (vec![Op::CreateNode(l(&["B"])), Op::CreateNode(l(&["Person"]))], End::Crash(CutSpec::LenPrefix(1, n))), (vec![Op::CreateNode(l(&["L2"]))], End::Close), (vec![Op::CreateNode(l(&["A", "B"]))], End::Close)],
+            t("cut:length-prefix-earlier"),
+            false,
+        );
+        cases_history(
+            "C06",
+            sc,
+            out,
+            Mode::NoSync,
+            &[(vec![Op::CreateNode(l(&["A"]))], End::Close), (vec![Op::CreateNode(l(&["B"])), Op::CreateNode(l(&["Person"]))], End::Crash(CutSpec::LenPrefix(0, n))), (vec![Op::CreateNode(l(&["L2"]))], End::Close)],
+            t("cut:length-prefix-last-of-two"),
+            false,
+        );
+        // a fresh database that never closed: the very first record is torn in its length prefix
+        cases_history("C06", sc, out, Mode::NoSync, &[(vec![Op::CreateNode(l(&["A"]))], End::Crash(CutSpec::LenPrefix(0, n))), (vec![Op::CreateNode(l(&["B"]))], End::Close)], t("cut:length-prefix-first-ever"), false);
+    }
     // K5: intact uncommitted records are committed by the next close
     cases_history(
         "C06",
@@ -2422,7 +2474,8 @@ fn main() {
                 let mut g = GenState { nodes: 0, edges: 0 };
                 let pre = r.below(2) as usize;
                 let mut ss: Vec<(Vec<Op>, End)> = (0..pre).map(|_| (gen_session(&mut r, &mut g, al, &mut tags), End::Close)).collect();
-                let spec = match (i % 5, r.below(3) as usize) {
+                let spec = match (i % 6, r.below(3) as usize) {
+                    (5, j) => CutSpec::LenPrefix(j, 1 + r.below(3) as usize),
                     (0, _) => CutSpec::Full,
                     (1, j) => CutSpec::Inside(j),
                     (2, j) => CutSpec::Boundary(j),
